@@ -57,8 +57,11 @@ def parseOp (t : String) : Option Op :=
   | ["trim_start"] => some .trimStart
   | ["trim_end"] => some .trimEnd
   | ["parse_bool"] => some .parseBool
+  -- `parse_with!(parser, T)` = `StdParser::<T>::parse_with` = `Parser::parse_T` (Extracted/Equiv/ParseWith.lean)
+  | ["pw_bool"] => some .parseBool
   | [name] =>
     if name.startsWith "parse_" then (tyOf (name.drop 6).toString).map fun (s, b) => .parseInt s b
+    else if name.startsWith "pw_" then (tyOf (name.drop 3).toString).map fun (s, b) => .parseInt s b
     else none
   | ["skip", n] => (parseNat n).map .skip
   | ["skip_back", n] => (parseNat n).map .skipBack
